@@ -5,6 +5,7 @@ open Driver AGH AGH.C03
 /-
 Lines (block = one configuration followed by requests):
   C03.conf  srvName strict  nA (raw kind addr bits zone)*nA  nB (…)*nB  nH host*nH  =>  ok | errA <i> | errB <i>
+  C03.set   (same fields as C03.conf; POST /control/access/set on the live server)  =>  ok | dupA | dupB | dupH | both | errA <i> | errB <i>
   C03.q     proto ipkind addr zone hasPath path sni connOK nq hostBlocked qname qtype
                                           =>  blocked rule action cached | noconf
 kind ∈ a4 a6 p4 p6 x ; ipkind ∈ 0 4 6 ; addr = big-endian bytes in hex.
@@ -50,17 +51,36 @@ def parseIP (kind addr zone : String) : Option IP := do
   | _ => none
 
 structure Conf where
+  /-- the lists the MODEL's manager was built from -/
   allowed : List Entry
   blocked : List Entry
   access : Access
   srvName : Bytes
   strict : Bool
+  /-- the lists in force according to the IMPLEMENTATION's verdicts on
+  `/control/access/set` (what the spec monitor judges requests against) -/
+  specAllowed : List Entry := allowed
+  specBlocked : List Entry := blocked
 
 abbrev State := Option Conf
 
-/-- Parse the configuration fields; returns the model's verdict on it and the
-fields that follow the blocked-hosts list. -/
-def parseConf (ins : List String) : Option (Except ConfErr Conf × List String) := do
+structure Lists5 where
+  srv : Bytes
+  strict : Bool
+  al : List Entry
+  bl : List Entry
+  hosts : List Bytes
+
+def takeHexN : Nat → List String → Option (List Bytes × List String)
+  | 0, rest => some ([], rest)
+  | n + 1, x :: rest => do
+    let b ← hexDecode x
+    let (bs, rest') ← takeHexN n rest
+    pure (b :: bs, rest')
+  | _, _ => none
+
+/-- Parse `srvName strict nA entries nB entries nH hosts`; returns the remaining fields. -/
+def parseLists (ins : List String) : Option (Lists5 × List String) := do
   match ins with
   | srv :: strict :: nA :: rest =>
     let srv ← hexDecode srv
@@ -69,18 +89,22 @@ def parseConf (ins : List String) : Option (Except ConfErr Conf × List String) 
     match rest with
     | nB :: rest =>
       let (bl, rest) ← parseEntries (← nB.toNat?) rest
-      -- blocked-hosts rules: opaque to the model (oracle), only checked for shape
       match rest with
       | nH :: rest =>
-        let nH ← nH.toNat?
-        if rest.length < nH then none
-        let m := match newAccessCtx al bl with
-          | .ok a => Except.ok (⟨al, bl, a, srv, strict⟩ : Conf)
-          | .error e => .error e
-        pure (m, rest.drop nH)
+        let (hosts, rest) ← takeHexN (← nH.toNat?) rest
+        pure (⟨srv, strict, al, bl, hosts⟩, rest)
       | [] => none
     | [] => none
   | _ => none
+
+/-- Parse the configuration fields; returns the model's verdict on it and the
+fields that follow the blocked-hosts list (an oracle for the model). -/
+def parseConf (ins : List String) : Option (Except ConfErr Conf × List String) := do
+  let (l, rest) ← parseLists ins
+  let m := match newAccessCtx l.al l.bl with
+    | .ok a => Except.ok ({ allowed := l.al, blocked := l.bl, access := a, srvName := l.srv, strict := l.strict } : Conf)
+    | .error e => .error e
+  pure (m, rest)
 
 def showConf : Except ConfErr Conf → String
   | .ok _ => "ok"
@@ -95,6 +119,27 @@ def stepConf (ins impl : List String) : Option (State × String) := do
     | .error _ => none
   let out := showConf m
   pure (st, verdict (out == "\t".intercalate impl) none out)
+
+def setErrName : Option C03.SetErr → String
+  | none => "ok"
+  | some .dupAllowed => "dupA" | some .dupDisallowed => "dupB" | some .dupHosts => "dupH"
+  | some .intersect => "both"
+  | some (.conf (.allowed i)) => "errA\t" ++ toString i
+  | some (.conf (.blocked i)) => "errB\t" ++ toString i
+
+/-- `POST /control/access/set` against the live configuration. -/
+def stepSet (st : State) (ins impl : List String) : Option (State × String) := do
+  let (l, rest) ← parseLists ins
+  if rest ≠ [] then none
+  match st with
+  | none => pure (none, verdict (impl == ["noconf"]) none "noconf")
+  | some c =>
+    let (a', e) := accessSet c.access l.al l.bl l.hosts
+    let out := setErrName e
+    let c1 : Conf := if e.isNone then { c with allowed := l.al, blocked := l.bl, access := a' } else c
+    -- the spec's lists follow the implementation's verdict
+    let c2 : Conf := if impl == ["ok"] then { c1 with specAllowed := l.al, specBlocked := l.bl } else c1
+    pure (some c2, verdict (out == "\t".intercalate impl) none out)
 
 def ruleName : Rule → String
   | .none => "none" | .ip => "ip" | .net => "net" | .clientID => "cid"
@@ -140,7 +185,7 @@ def stepQ (st : State) (ins impl : List String) : Option String := do
         | [ib, _, iact, _] =>
           match parseBool ib, parseAction iact with
           | some ib, some iact =>
-            (specFail ⟨c.allowed, c.blocked, r⟩ ⟨ib, iact⟩).map Why.token
+            (specFail ⟨c.specAllowed, c.specBlocked, r⟩ ⟨ib, iact⟩).map Why.token
           | _, _ => some "C03.unparsable-observation"
         | _ => some "C03.unparsable-observation"
       pure (verdict (out == "\t".intercalate impl) spec out)
@@ -160,13 +205,16 @@ def replyName : Option Reply → String
 /-- Per request: model output fields, number of requests filtered, spec failure. -/
 def sockReqs (c : Conf) : List String → List String → Option (List String × Nat × Option String)
   | [], _ => some ([], 0, none)
-  | proto :: ipk :: addr :: zone :: sni :: hostBlocked :: _qname :: _qtype :: rest, impl => do
+  | proto :: ipk :: addr :: zone :: sni :: hostBlocked :: _qname :: _qtype :: path :: rest, impl => do
     let proto ← parseProto proto
     let ip ← parseIP ipk addr zone
     let sni ← hexDecode sni
     let hostBlocked ← parseBool hostBlocked
+    let path ← hexDecode path
+    -- a DoH request always has a URL path and a TLS state on a real listener
     let ctx : C16.Ctx := {
-      proto := proto, path := none, httpTLS := none, hostHdr := [], hostSplit := none
+      proto := proto, path := if proto == .https then some path else none
+      httpTLS := if proto == .https then some sni else none, hostHdr := [], hostSplit := none
       connSNI := some sni, hostSrvName := c.srvName, strict := c.strict }
     let r : Request := { proto := proto, addr := ip, clientID := C16.clientIDFromCtx ctx, nq := 1,
                          hostBlocked := hostBlocked }
@@ -204,7 +252,7 @@ def stepSock (ins impl : List String) : Option String := do
   | .ok c =>
     match rest with
     | k :: reqs =>
-      if reqs.length ≠ 8 * (← k.toNat?) then none
+      if reqs.length ≠ 9 * (← k.toNat?) then none
       let (outs, nf, spec) ← sockReqs c reqs impl
       let out := "\t".intercalate (outs ++ [toString nf])
       -- the filtering hook may run more than once per processed request: compare "≥"
@@ -231,6 +279,13 @@ def step (st : State) (line : String) : State × String :=
   | "C03.q" :: rest =>
     match splitArrow rest with
     | some (ins, impl) => (st, (stepQ st ins impl).getD "bad-op")
+    | none => (st, "bad-op")
+  | "C03.set" :: rest =>
+    match splitArrow rest with
+    | some (ins, impl) =>
+      match stepSet st ins impl with
+      | some (st', o) => (st', o)
+      | none => (st, "bad-op")
     | none => (st, "bad-op")
   | "C03.sblock" :: rest =>
     match splitArrow rest with
